@@ -15,8 +15,12 @@ from harness.drivers.C09 import full_snapshot
 def make_groups(rng):
     t = rng.choice(["m2x3", "v2x3", "m2x2", "t3", "s0v", "rect", "ign0", "fuse"])
     gs = [family.draw_group(rng, t)]
-    if rng.random() < 0.3:
+    if rng.random() < 0.4:
         gs.append(family.draw_group(rng, rng.choice(["m2x2", "v2x3"])))
+        if rng.random() < 0.5:          # groups commonly share one learning-rate schedule / weight decay
+            gs[1]["lr"], gs[1]["lr0"] = list(gs[0]["lr"]), gs[0]["lr0"]
+            gs[1]["wd"], gs[1]["wd0"] = list(gs[0]["wd"]), gs[0]["wd0"]
+            gs[1]["shared_hyper"] = True
     return gs
 
 
@@ -37,9 +41,12 @@ def pt2_task(args):
                          pt2=ShampooPT2CompileConfig(pytorch_compile_backend=backend, enable_shampoo_pt2_dynamic_shape=dyn))
         mm = []
         for i, ev in enumerate(beh):
-            if ev["ev"] == "SetHyper":
-                eager.do_sethyper(ev)
-                comp.do_sethyper(ev)
+            em = eager.do_event(ev)
+            if em is not None:          # SetHyper / Save / Load (into the live optimizers) on both
+                cm = comp.do_event(ev)
+                if bool(em) != bool(cm) or (ev["ev"] == "Load" and full_snapshot(eager) != full_snapshot(comp)):
+                    mm.append((i + 1, f"pt2.{backend}.dyn{dyn}.{ev['ev'].lower()}", f"as the eager optimizer: {em}", f"{cm}"))
+                    break
                 continue
             eager.do_step(ev["present"], ev["outc"])
             comp.do_step(ev["present"], ev["outc"])
@@ -60,12 +67,27 @@ def pt2_task(args):
         return [], None, traceback.format_exc(), 0
 
 
+def rollback_score(beh):
+    """number of Loads that restore a checkpoint taken at an EARLIER step count and are followed by a step"""
+    kinds = [e["ev"] for e in beh]
+    score, saved_at, steps = 0, None, 0
+    for i, k in enumerate(kinds):
+        if k == "Step":
+            steps += 1
+        elif k == "Save":
+            saved_at = steps
+        elif k == "Load" and saved_at is not None and steps > saved_at and "Step" in kinds[i + 1:]:
+            score += 1
+            steps = saved_at
+    return score
+
+
 def edges(beh):
     out = set()
     prev = {}
     hyper = False
     for ev in beh:
-        if ev["ev"] == "SetHyper":
+        if ev["ev"] != "Step":
             hyper = True
             continue
         for gi, ob in enumerate(ev["obs"]):
@@ -86,6 +108,13 @@ def run(ctx):
     quick = ctx.tier == "quick"
     rng = random.Random(ctx.seed * 7919 + 18)
     tasks = sp.gen_tasks(ctx, rng, 8 if quick else 40, 3 if quick else 8, make_groups, 7, ("fail",), ("mom", "wd", "lr", "b1"))
+    # checkpoints taken from and loaded into the LIVE optimizers (rollback / reload between compiled steps); behaviours that
+    # really roll back (Save, then a step, then Load, then a step) are preferred
+    cand = sp.gen_tasks(ctx, rng, 8 if quick else 30, 30 if quick else 60, make_groups, 8, (), ("wd", "lr"), ckpt=True)
+    cand.sort(key=lambda t: -rollback_score(t[1]))
+    n_ck = 24 if quick else 200
+    tasks += cand[:n_ck]
+    ctx.put("rollback_behaviours", sum(1 for t in cand[:n_ck] if rollback_score(t[1]) > 0))
     modes = [("eager", False), ("aot_eager", False), ("eager", True), ("aot_eager", None)]
     ptasks = []
     for i, (d, beh, _) in enumerate(tasks):
@@ -114,7 +143,7 @@ def run(ctx):
     ctx.add("traces_validated_against_impl", len(idx))
     ctx.put("distinct_nontrivial", sp.nontrivial_count(tasks))
     ctx.put("rule", "each TLC-simulated behaviour (warm-up/preconditioned switch, refresh steps, gradient-presence changes that force "
-                    "recompilation, tolerated failures, hyper changes) is run on an eager optimizer and on optimizers compiled with backend "
+                    "recompilation, tolerated failures, hyper changes, Save / Load of a checkpoint into the live optimizer) is run on an eager optimizer and on optimizers compiled with backend "
                     "eager / aot_eager in static, dynamic and auto-dynamic mode; parameters and every state tensor are compared bitwise after "
                     "every step; a run counts as a program only if dynamo reports compiled frames; the compiled run's trace is validated by TLC; "
                     "edge class = (stepped, use-graft, refresh, selector changed, hyper changed)")
